@@ -9,6 +9,7 @@
   The tie to the source is the correspondence stream `c11.collect`.
 -/
 import PrologVerif.Proofs.CollectWitness
+import PrologVerif.Proofs.CollectOrder
 namespace PrologVerif.C11
 open PrologVerif PrologVerif.Collect PrologVerif.CollectSpec
 
@@ -315,10 +316,14 @@ theorem C11_setof {α : Type} (cmp : α → α → Ordering) (h : IsTotalOrder c
     IsSetOf cmp l (Collect.set cmp l) :=
   set_isSetOf h l
 
+/-- the comparison the model of `Env.set` uses (the `Compare` methods on resolved terms: variables by
+    age, then floats, integers, atoms by text, compounds by arity, name, arguments) is a total order -/
+theorem C11_setof_order : IsTotalOrder compareStd := compareStd_isTotalOrder
+
 /-- **C11_setof** (as used by `collectionOf`): the terms of a group are compared as resolved in the
     environment after the witness unifications; the list delivered consists of terms of the group, and
     their resolved forms are the sorted duplicate-free list of the resolved forms of the group. -/
-theorem C11_setof_aggregate (h : IsTotalOrder compareStd) (e : Env) (fuel : Nat) (ts : List Term) (l : Term)
+theorem C11_setof_aggregate (e : Env) (fuel : Nat) (ts : List Term) (l : Term)
     (ha : aggregate .set e fuel ts = some l) :
     ∃ (keys : List Term) (out : List (Term × Term)), ts.mapM (applyEnv e fuel []) = some keys ∧ l = Term.list (out.map (·.2)) ∧
       (∀ p ∈ out, p.2 ∈ ts ∧ applyEnv e fuel [] p.2 = some p.1) ∧
@@ -357,7 +362,7 @@ theorem C11_setof_aggregate (h : IsTotalOrder compareStd) (e : Env) (fuel : Nat)
     · intro p hp
       exact hk2 p (mem_of_mem_set hp)
     · rw [set_map (cmp := compareStd) (fun p : Term × Term => p.1)]
-      exact set_isSetOf h _
+      exact set_isSetOf compareStd_isTotalOrder _
 
 /-! ### non-vacuity -/
 
@@ -376,5 +381,24 @@ example : ∃ e, unifyWitnesses (tuple [.var 1, .var 2]) 20 [tuple [.var 10, .va
     applyEnv e 20 [] (tuple [.var 1, .var 2]) = some (tuple [.var 11, .var 11]) := by
   refine ⟨_, rfl, ?_⟩
   decide +kernel
+
+/-- the hypotheses of C11_bagof_witnesses are met by `bagof(X, t(X,Y,Z), L)` with the three solutions
+    of `t(1,C,C). t(2,A,B). t(3,D,D).`: two groups, the stated fuel is available -/
+def exGoal : Term := Term.a3 "t" (.var 0) (.var 1) (.var 2)
+def exSols : List (List (Nat × Term)) :=
+  [[(0, .int 1), (1, .var 4), (2, .var 4)], [(0, .int 2), (1, .var 5), (2, .var 6)], [(0, .int 3), (1, .var 7), (2, .var 7)]]
+example : freeVariables exGoal (.var 0) = [1, 2] := by decide +kernel
+example : (groups (copyPairs (solutionPairs exGoal (.var 0) exSols) (8 + 1)).1).map (·.map (·.2)) =
+    [[.int 1, .int 3], [.int 2]] := by decide +kernel
+example : ∀ g ∈ groups (copyPairs (solutionPairs exGoal (.var 0) exSols) (8 + 1)).1,
+    ∀ p ∈ g, needT p.1 + g.length + (freeVariables exGoal (.var 0)).length + 4 ≤ 20 := by decide +kernel
+/-- and `collectionOf` answers with the two groups -/
+example : ∃ e1 e2, collectionOf .bag (witnessOf exGoal (.var 0)) (.var 3) (solutionPairs exGoal (.var 0) exSols) none 8 20 =
+      .ok [e1, e2] ∧
+    (applyEnv e1 20 [] (Term.a2 "-" exGoal (.var 3))).map Term.canon =
+      some (Term.a2 "-" (Term.a3 "t" (.var 0) (.var 1) (.var 1)) (Term.list [.int 1, .int 3])) ∧
+    (applyEnv e2 20 [] (Term.a2 "-" exGoal (.var 3))).map Term.canon =
+      some (Term.a2 "-" (Term.a3 "t" (.var 0) (.var 1) (.var 2)) (Term.list [.int 2])) := by
+  refine ⟨_, _, rfl, ?_, ?_⟩ <;> decide +kernel
 
 end PrologVerif.C11
